@@ -15,12 +15,13 @@ import (
 // ---- case builders ------------------------------------------------------------------------------------
 type caseB struct {
 	nextID int
+	cri    bool // the case runs with cfg front = 1: lines are rendered in CRI format
 }
 
 func (b *caseB) line(stream string, pad, kind, delay int) hx.Sx {
 	l := lineSpec{stream: stream, kind: kind, delay: delay, id: b.nextID}
 	b.nextID++
-	return hx.L(hx.S(stream), hx.I(minLen(l)+pad), hx.I(kind), hx.I(delay))
+	return hx.L(hx.S(stream), hx.I(minLen(l, b.cri)+pad), hx.I(kind), hx.I(delay))
 }
 
 func opAppend(name int, cut int, lines ...hx.Sx) hx.Sx {
@@ -457,6 +458,10 @@ func gen03(c *hmain.Ctx) {
 	// ---- 8. scale / history thresholds (gen_thresholds.go)
 	if os.Getenv("C03_SKIP_THRESHOLDS") == "" { // development aid: time the streams above alone
 		genThresholds(c, r, add)
+	}
+	// ---- 9. round 5: behaviour of the anchored files no case reached (gen_cov.go)
+	if os.Getenv("C03_SKIP_COV") == "" {
+		genCoverage(c, r, multiWhich, add)
 	}
 
 	// ---- run: the cases are independent worlds; execute them concurrently, record them in order
